@@ -102,8 +102,8 @@ PInsts == <<PFit("cubic", 1, 1), PFit("cubic", 1, 2), PFit("cubic", 1, 3),
           \o [k \in 1..(N - 1) |-> PBase("cubic", 1, IF k = 1 THEN 3 + N + 1 ELSE 3 + k)]
 PRels == <<PeriodicValue(1, K), PeriodicSlope(1, K), PeriodicCurv(1, K)>>
          \o PieceRelations(1, K, 3, TRUE)                       \* a fitted spline is smooth too
-         \o PieceRelations(4, K, 3, TRUE) \o NaturalEnds(4, K)
-         \o PieceRelations(7, K, 1, FALSE)
+         \o PieceRelations(4, K, 3, TRUE) \o NaturalEnds(4, K) \o ExtrapRelations(4, K, 3)
+         \o PieceRelations(7, K, 1, FALSE) \o ExtrapRelations(7, K, 1)
          \o Additive("fit-linearity:sum", 3, 1, 2, QP)
          \o Additive("fit-linearity:sum", 6, 4, 5, QP)
 PBil == [k \in 1..N |-> NormalEquation("least-squares:normal-equation", 4, 7 + k, QP, PerY)]
